@@ -1103,10 +1103,18 @@ class TestNode(Runnable):
             self._bridged_nodes.append(test_node)
             test_node._bridged_nodes.append(self)
 
-            self._picked_by_setup_nodes = test_node._picked_by_setup_nodes
-            self._dropped_setup_nodes = test_node._dropped_setup_nodes
-            self._picked_by_cleanup_nodes = test_node._picked_by_cleanup_nodes
-            self._dropped_cleanup_nodes = test_node._dropped_cleanup_nodes
+            # all nodes bridged so far (directly or not) must keep sharing the same registers
+            bridged, pending = [], [self]
+            while len(pending) > 0:
+                node = pending.pop()
+                if any(node is b for b in bridged):
+                    continue
+                bridged.append(node)
+                pending.extend(node._bridged_nodes)
+                node._picked_by_setup_nodes = test_node._picked_by_setup_nodes
+                node._dropped_setup_nodes = test_node._dropped_setup_nodes
+                node._picked_by_cleanup_nodes = test_node._picked_by_cleanup_nodes
+                node._dropped_cleanup_nodes = test_node._dropped_cleanup_nodes
 
     def clone_as_source(self, test_nodes: list["TestNode"]) -> None:
         """
